@@ -222,6 +222,11 @@ class MapToMolecule(Processor):
 
             # extract the nodes of this paticular residue and store a
             # dummy correspndance
+            # the resids of the block follow from the resid of the first node
+            block_resids = nx.get_node_attributes(new_mol, "resid")
+            resid_offset = resid_dict[start_node] - min(block_resids.values())
+            for mol_node, resid in block_resids.items():
+                new_mol.nodes[mol_node]["resid"] = resid + resid_offset
             correspondence = {node:node for node in new_mol.nodes}
             self.multiblock_correspondence[self.node_to_fragment[start_node]] = correspondence
             residue = _correspondence_to_residue(meta_molecule,
